@@ -232,7 +232,7 @@ def t3_case(case):
 
     # --- residual error -----------------------------------------------------------------------------------------------
     c = C('residual_error')
-    if d >= 2:
+    if d >= 1:      # order 1 included: residual_error used to end in UnboundLocalError there (fixed in /repo)
         op = spec.rand_tt(rng, rd, rd, [1] + [int(rng.integers(1, 3)) for _ in range(d - 1)] + [1], 'complex' if kind != 'real' else 'real')
         x = spec.rand_tt(rng, rd, [1] * d, [1] + [int(rng.integers(1, 3)) for _ in range(d - 1)] + [1], 'real')
         y = spec.rand_tt(rng, rd, [1] * d, [1] + [int(rng.integers(1, 3)) for _ in range(d - 1)] + [1], 'complex' if kind == 'complex' else 'real')
